@@ -46,16 +46,36 @@ class World:
 
     def __init__(self, workdir=None):
         self.versions = {}
+        self.gone = set()      # entries that are deleted right now (their version counter is kept)
 
     def entries(self):
         return sorted(self.versions.items(), key=lambda kv: (kv[0][0], kv[0][1] or ""))
 
     def edit(self, name, ns):
+        """Write a new text; a deleted source is created again."""
         key = (name, ns)
         if key not in self.versions:
             return
         self.versions[key] += 1
+        self.gone.discard(key)
         self._write(name, ns, self.versions[key])
+
+    def delete(self, name, ns):
+        key = (name, ns)
+        if key not in self.versions or key in self.gone:
+            return
+        self.gone.add(key)
+        self._remove(name, ns)
+
+    def restore(self):
+        """Every history starts with all sources present."""
+        for name, ns in sorted(self.gone, key=lambda k: (k[0], k[1] or "")):
+            self.edit(name, ns)
+
+    def source_key(self, req):
+        """Which entry a get request reads."""
+        _, _mode, name, kw, ctx, _g = req
+        return (name, (kw if kw is not None else (ctx or None)) if self.aware else None)
 
     def _add(self, name, ns):
         self.versions[(name, ns)] = 0
@@ -73,6 +93,9 @@ class DictWorld(World):
 
     def _write(self, name, ns, ver):
         self.d[name] = source_text(name, ns, ver)
+
+    def _remove(self, name, ns):
+        del self.d[name]
 
     def plain(self):
         from liquid import DictLoader
@@ -96,6 +119,13 @@ class ChoiceWorld(World):
 
     def _write(self, name, ns, ver):
         (self.d1 if name == "a" else self.d2)[name] = source_text(name, ns, ver)
+        if name == "a":
+            self.d2["a"] = "shadowed by the first loader"
+
+    def _remove(self, name, ns):
+        """The name no longer resolves: it is removed from every delegate."""
+        self.d1.pop(name, None)
+        self.d2.pop(name, None)
 
     def _loaders(self):
         from liquid import DictLoader
@@ -136,6 +166,9 @@ class NsDictWorld(World):
 
     def _write(self, name, ns, ver):
         self.d[self._key(name, ns)] = source_text(name, ns, ver)
+
+    def _remove(self, name, ns):
+        del self.d[self._key(name, ns)]
 
     def _classes(self):
         from liquid import CachingDictLoader, DictLoader
@@ -191,6 +224,9 @@ class FsWorld(World):
         self.clock += 7  # an edit always changes the modification time, whatever the wall clock does
         os.utime(p, (self.clock, self.clock))
 
+    def _remove(self, name, ns):
+        os.remove(self._path(name, ns))
+
     def plain(self):
         from liquid import FileSystemLoader
 
@@ -241,10 +277,52 @@ class NsFsWorld(FsWorld):
         return self._classes()[1](self.root, auto_reload=auto_reload, namespace_key=nk, capacity=capacity)
 
 
-WORLDS = {"dict": DictWorld, "choice": ChoiceWorld, "dict-ns": NsDictWorld, "fs": FsWorld, "fs-ns": NsFsWorld}
+class TsDictWorld(DictWorld):
+    """CachingLoaderMixin(thread_safe=True): the ThreadSafeLRUCache behind the same mixin (used from one thread)."""
+
+    kind = "dict-ts"
+
+    def caching(self, nk, auto_reload, capacity):
+        from liquid import CachingLoaderMixin, DictLoader
+
+        class ThreadSafeCachingDictLoader(CachingLoaderMixin, DictLoader):
+            def __init__(self, templates, **kw):
+                super().__init__(thread_safe=True, **kw)
+                DictLoader.__init__(self, templates)
+
+        return ThreadSafeCachingDictLoader(self.d, auto_reload=auto_reload, namespace_key=nk, capacity=capacity)
+
+
+class ChoiceFsWorld(FsWorld):
+    """CachingChoiceLoader over two FileSystemLoaders: `a` lives in the first directory, `d/b` in the second."""
+
+    kind = "choice-fs"
+
+    def _path(self, name, ns):
+        return os.path.join(self.root, "first" if name == "a" else "second", *name.split("/"))
+
+    def _loaders(self):
+        from liquid import FileSystemLoader
+
+        for d in ("first", "second"):
+            os.makedirs(os.path.join(self.root, d), exist_ok=True)
+        return [FileSystemLoader(os.path.join(self.root, "first")), FileSystemLoader(os.path.join(self.root, "second"))]
+
+    def plain(self):
+        from liquid import ChoiceLoader
+
+        return ChoiceLoader(self._loaders())
+
+    def caching(self, nk, auto_reload, capacity):
+        from liquid import CachingChoiceLoader
+
+        return CachingChoiceLoader(self._loaders(), auto_reload=auto_reload, namespace_key=nk, capacity=capacity)
+
+
+WORLDS = {"dict-ts": TsDictWorld, "choice-fs": ChoiceFsWorld, "dict": DictWorld, "choice": ChoiceWorld, "dict-ns": NsDictWorld, "fs": FsWorld, "fs-ns": NsFsWorld}
 
 # ----------------------------------------------------------------------------- running one history
-# request: ("get", mode, name, kw, ctx, g) | ("edit", name, ns)
+# request: ("get", mode, name, kw, ctx, g) | ("edit", name, ns) | ("delete", name, ns)
 #   mode "s"/"a"; kw: namespace given as keyword argument or None; ctx: None (no context), "" (a context without the
 #   key) or the namespace in context.globals; g: 0 (no globals argument) or the value of the global `g`
 # cfg: (nk_set, auto_reload, capacity, env_g)
@@ -278,21 +356,25 @@ def _observe(env, probe, req):
 
 
 def run_history(world, cfg, reqs):
-    """-> (observations of the caching loader, observations of a fresh non-caching loader per request)."""
+    """-> (observations of the caching loader, observations of a fresh non-caching loader per request,
+    for each request whether the source it reads was deleted at that moment)."""
     nk_set, auto_reload, capacity, env_g = cfg
     cenv, cprobe, fenv, fprobe = _envs(env_g)
+    world.restore()
     cenv.loader = world.caching(NSKEY if nk_set else "", auto_reload, capacity)  # one caching loader per history
-    got, want = [], []
+    got, want, gone = [], [], []
     for r in reqs:
-        if r[0] == "edit":
-            world.edit(r[1], r[2])
+        if r[0] in ("edit", "delete"):
+            (world.edit if r[0] == "edit" else world.delete)(r[1], r[2])
             got.append(("done",))
             want.append(("done",))
+            gone.append(False)
             continue
         got.append(_observe(cenv, cprobe, r))
         fenv.loader = world.plain()  # a fresh non-caching loader per request
         want.append(_observe(fenv, fprobe, r))
-    return got, want
+        gone.append(world.source_key(r) if world.source_key(r) in world.gone else False)
+    return got, want, gone
 
 
 _ENVS: dict = {}
@@ -309,12 +391,15 @@ def _envs(env_g):
     return _ENVS[env_g]
 
 
-def diff_kind(got, want, auto_reload):
+def diff_kind(got, want, auto_reload, gone=False):
     """What the property demands: same outcome as the non-caching loader; only without auto-reload may the source
-    be an older version of the same entry.  -> None or the name of the differing aspect."""
+    be an older version of the same entry (also of an entry deleted since: `gone` is its key).
+    -> None or the name of the differing aspect."""
     if got == want:
         return None
     if got[0] != want[0]:
+        if not auto_reload and gone and got[0] == "t" and want == ("err", "ENotFound") and tuple(got[2:4]) == tuple(gone):
+            return None
         return "template-vs-error"
     if got[0] == "err":
         return "error-class"
@@ -339,16 +424,18 @@ def g_ostr(x):
 def g_cfg(world, cfg):
     nk_set, auto_reload, capacity, env_g = cfg
     return (f"{{| nk := {g_str(NSKEY if nk_set else '')}; auto_reload := {g_bool(auto_reload)}; capacity := {g_nat(capacity)}; "
-            f"aware := {g_bool(world.aware)}; detects := true; awaitable_uptodate := false; env_g := {g_N(env_g)} |}}")
+            f"aware := {g_bool(world.aware)}; detects := true; awaitable_uptodate := false; missing_raises := false; env_g := {g_N(env_g)} |}}")
 
 
 def g_store(entries):
-    return g_list(f"(({g_str(n)}, {g_ostr(ns)}), {g_N(v)})" for (n, ns), v in entries)
+    return g_list(f"(({g_str(n)}, {g_ostr(ns)}), ({g_N(v)}, true))" for (n, ns), v in entries)
 
 
 def g_req(r):
     if r[0] == "edit":
         return f"Edit {g_str(r[1])} {g_ostr(r[2])}"
+    if r[0] == "delete":
+        return f"Delete {g_str(r[1])} {g_ostr(r[2])}"
     _, mode, name, kw, ctx, g = r
     return (f"Get {{| g_mode := {'Async' if mode == 'a' else 'Sync'}; g_name := {g_str(name)}; g_kw := {g_ostr(kw)}; "
             f"g_ctx := {g_ostr(ctx or None)}; g_globals := {g_N(g)} |}}")
@@ -389,20 +476,23 @@ def gets(modes, names, sels, gs):
 def alphabets(world):
     """Three exhaustive universes (request alphabets); histories are all words over one alphabet."""
     ens = "x" if world.aware else None
-    namespaces = gets("sa", NAMES, [("x", None), ("y", None)], [0]) + [("edit", "a", ens)]
+    namespaces = gets("sa", NAMES, [("x", None), ("y", None)], [0]) + [("edit", "a", ens), ("delete", "a", ens)]
     globs = gets("sa", ["a"], [(None, None)], [0, 1, 2]) + [("get", "s", "d/b", None, None, 0), ("edit", "a", None)]
     context = gets("sa", ["a"], [(None, None), (None, ""), ("x", None), (None, "x"), (None, "y"), ("y", "x")], [0]) + [
         ("edit", "a", ens)]
-    return {"namespaces": namespaces, "globals": globs, "context": context}
+    # sources appearing and disappearing: both names, gets without namespace games
+    lifecycle = gets("sa", NAMES, [("x", None)], [0]) + [("edit", "a", ens), ("delete", "a", ens),
+                                                         ("edit", "d/b", ens), ("delete", "d/b", ens)]
+    return {"namespaces": namespaces, "globals": globs, "context": context, "lifecycle": lifecycle}
 
 
 def random_history(rng, world, n):
     sels = [(None, None), (None, ""), ("x", None), ("y", None), (None, "x"), (None, "y"), ("x", "y"), ("y", "x")]
     out = []
     for _ in range(n):
-        if rng.random() < 0.2:
-            name, ns = rng.choice(list(world.versions))
-            out.append(("edit", name, ns))
+        if rng.random() < 0.3:
+            name, ns = rng.choice(sorted(world.versions, key=lambda k: (k[0], k[1] or "")))
+            out.append(("edit" if rng.random() < 0.6 else "delete", name, ns))
         else:
             kw, ctx = rng.choice(sels)
             out.append(("get", rng.choice("sa"), rng.choice(NAMES), kw, ctx, rng.choice([0, 0, 1, 2])))
@@ -420,9 +510,9 @@ def plan(ck: Check):
         (a leading edit only changes the initial version, a trailing one is not observed); where the two namespaces
         are interchangeable (loaders that ignore the namespace) the first request names namespace x."""
         for w in itertools.product(alpha, repeat=n):
-            if w[0][0] == "edit" or w[-1][0] == "edit":
+            if w[0][0] == "edit" or w[-1][0] in ("edit", "delete"):
                 continue
-            if symmetric and (w[0][3] == "y" or (w[0][3] is None and w[0][4] == "y")):
+            if symmetric and w[0][0] == "get" and (w[0][3] == "y" or (w[0][3] is None and w[0][4] == "y")):
                 continue
             yield w
 
@@ -430,7 +520,7 @@ def plan(ck: Check):
     A, N_ = True, False  # auto_reload on / off
     table = [
         ("dict", "namespaces", 4, 5, [(True, A, 1, 0), (True, N_, 2, 0)]),
-        ("dict", "namespaces", 4, 4, [(True, A, 2, 0)]),
+        ("dict", "namespaces", 3, 4, [(True, A, 2, 0)]),
         ("dict", "namespaces", 3, 4, [(True, A, 3, 0), (True, A, 4, 0)]),
         ("dict", "namespaces", 3, 4, [(True, N_, 1, 0), (True, N_, 3, 0), (True, N_, 4, 0)]),
         ("dict", "globals", 4, 5, [(False, A, 2, 0)]),
@@ -445,19 +535,29 @@ def plan(ck: Check):
         ("fs", "globals", 3, 4, [(False, A, 2, 0)]),
         ("fs-ns", "namespaces", 3, 4, [(True, A, 2, 0), (True, A, 4, 0)]),
         ("fs-ns", "context", 2, 3, [(True, A, 2, 0), (True, N_, 1, 0)]),
+        # sources deleted and created again
+        ("dict", "lifecycle", 4, 5, [(True, A, 2, 0), (True, N_, 1, 0)]),
+        ("dict-ns", "lifecycle", 3, 4, [(True, A, 2, 0)]),
+        ("choice", "lifecycle", 3, 4, [(True, A, 1, 0), (True, N_, 2, 0)]),
+        ("fs", "lifecycle", 3, 4, [(True, A, 2, 0), (True, N_, 1, 0)]),
+        ("fs-ns", "lifecycle", 3, 3, [(True, A, 1, 0)]),
+        ("choice-fs", "lifecycle", 3, 4, [(True, A, 2, 0)]),
+        # the same mixin over ThreadSafeLRUCache (thread_safe=True), used from one thread
+        ("dict-ts", "namespaces", 3, 4, [(True, A, 2, 0), (True, N_, 1, 0)]),
+        ("dict-ts", "lifecycle", 3, 4, [(True, A, 1, 0)]),
     ]
     for kind, uni, lq, lt, cfgs in table:
         out.append((kind, uni, cfgs, lq if q else lt, None))
-    nrand = {"dict": 1500, "dict-ns": 1500, "choice": 700, "fs": 250, "fs-ns": 250}
+    nrand = {"dict": 1500, "dict-ns": 1500, "choice": 700, "fs": 250, "fs-ns": 250, "dict-ts": 500, "choice-fs": 150}
     for kind, n in nrand.items():
         out.append((kind, "random", None, 12, n if q else 10 * n))
     return out, words
 
 
 # ----------------------------------------------------------------------------- the check
-def first_bad(got, want, auto_reload):
+def first_bad(got, want, auto_reload, gone=None):
     for i, (g, w) in enumerate(zip(got, want)):
-        k = diff_kind(g, w, auto_reload)
+        k = diff_kind(g, w, auto_reload, gone[i] if gone else False)
         if k:
             return i, k
     return None
@@ -469,8 +569,8 @@ def shrink(world, cfg, reqs, kind):
     i = 0
     while i < len(reqs) - 1:
         cand = reqs[:i] + reqs[i + 1:]
-        got, want = run_history(world, cfg, cand)
-        fb = first_bad(got, want, cfg[1])
+        got, want, gone = run_history(world, cfg, cand)
+        fb = first_bad(got, want, cfg[1], gone)
         if fb is not None and fb[1] == kind:
             reqs = cand[: fb[0] + 1]
             i = 0
@@ -491,7 +591,10 @@ def run(ck: Check) -> None:
         "{get_template, get_template_async} x globals {none, g=1, g=2} with source edits in between, against one caching loader "
         "per history (CachingDictLoader, CachingChoiceLoader, CachingFileSystemLoader, and namespace-aware subclasses of the dict "
         "and file-system loaders), capacities 1..4, auto_reload on/off, namespace_key set/unset, environment globals empty/non-empty. "
-        "Exhaustive: every word of the stated length over three request alphabets (namespaces: 9 symbols, globals: 8, context: 13); "
+        "Sources are edited, deleted and re-created between requests. "
+        "Exhaustive: every word of the stated length over four request alphabets (namespaces: 10 symbols, globals: 8, context: 13, "
+        "lifecycle = gets plus edit/delete of both names: 8); also a CachingChoiceLoader over two FileSystemLoaders and the mixin "
+        "with thread_safe=True (ThreadSafeLRUCache, single-threaded); "
         "random: lengths 1..12 over everything. Each request is also served by a fresh non-caching loader (oracle). "
         "Non-trivial = some cache key is requested at least twice; distinct = distinct (loader, configuration, history)."
     )
@@ -505,7 +608,8 @@ def run(ck: Check) -> None:
     ck.assumptions = [
         "the mapping (name, namespace) -> cache key is injective on the requests of a history (names {a, d/b}, namespaces {x, y}); "
         "the colliding case is probed separately (signature c23-cache-key-collision)",
-        "sources are edited, never deleted; an edit is visible to the loader's uptodate check",
+        "sources are edited, deleted and re-created between requests; every such change is visible to the loader's uptodate check "
+        "(an edit always changes the modification time)",
         "requests are sequential (no concurrent use of one loader)",
     ]
     ck.proof()
@@ -525,14 +629,15 @@ def run(ck: Check) -> None:
 
     def one(world, uni, cfg, reqs):
         nonlocal nviol
+        world.restore()
         base = dict(world.versions)
         entries = [(k, 0) for k, _ in world.entries()]
-        got, want = run_history(world, cfg, reqs)
+        got, want, gone = run_history(world, cfg, reqs)
         keys = [(r[2], r[3] if r[3] is not None else (r[4] or None)) for r in reqs if r[0] == "get"]
         ck.note_case((world.kind, cfg, reqs), nontrivial=len(set(keys)) < len(keys))
         ck.count(f"{world.kind}.{uni}.len{len(reqs)}")
         ck.traces += len(reqs)
-        fb = first_bad(got, want, cfg[1])
+        fb = first_bad(got, want, cfg[1], gone)
         explained = False
         if fb is not None:
             explained = True
@@ -542,7 +647,7 @@ def run(ck: Check) -> None:
                 seen_sig.add(sig)
                 nviol += 1
                 small = shrink(world, cfg, reqs[: i + 1], kind)
-                g2, w2 = run_history(world, cfg, small)
+                g2, w2, _ = run_history(world, cfg, small)
                 ck.violation(
                     "impl-violation", sig,
                     f"{world.kind} loader, namespace_key={'uid' if cfg[0] else ''!r} auto_reload={cfg[1]} capacity={cfg[2]}: after "
@@ -644,10 +749,10 @@ def replay(data) -> int:
         world = WORLDS[case["world"]](tmp)
         cfg = tuple(case["cfg"])
         reqs = [tuple(r) for r in case["requests"]]
-        got, want = run_history(world, cfg, reqs)
+        got, want, gone = run_history(world, cfg, reqs)
         for r, g, w in zip(reqs, got, want):
             print(r, "\n   caching    :", g, "\n   non-caching:", w)
-        fb = first_bad(got, want, cfg[1])
+        fb = first_bad(got, want, cfg[1], gone)
         print(("VIOLATION reproduced" if fb else "not reproduced") + f" property={data['property']}"
               + (f" ({fb[1]} at request {fb[0]})" if fb else ""))
         return 1 if fb else 0
